@@ -1074,6 +1074,14 @@ fn check_conn(case: &ConnCase, ctx: &mut CaseCtx<'_>) -> Result<(), String> {
     let rn = decode_stream(&bn).map_err(|(_, off, why)| {
         format!("{}-shard server wrote a malformed reply stream at byte {}: {}", n, off, why)
     })?;
+    if std::env::var("C03_DEBUG").is_ok() {
+        eprintln!(
+            "conn debug: 1 shard {:?} | {} shards {:?}",
+            r1.iter().map(|r| r.show()).collect::<Vec<_>>(),
+            n,
+            rn.iter().map(|r| r.show()).collect::<Vec<_>>()
+        );
+    }
     if r1.len() != rn.len() {
         return Err(format!(
             "same byte stream: the 1-shard server wrote {} replies, the {}-shard server {}\n    program:\n{}",
